@@ -207,6 +207,12 @@ class ParserS(Spec):
         o.fields['packages'].has = lambda e, s, k: fresh_bool('inpk')
         o.fields['global_latex_options'] = TokList([])
         mp = Obj('yalafi.mathparser.MathParser', {'parser': o})
+        # error mark of the last maths section: between calls it may be a
+        # left-over of another text (parser_work switches texts), so the
+        # object invariant says nothing about it; expand_math_section
+        # ensures that it is fit for the output of the current text
+        mp.fields['error_mark'] = ListS(AnyS(), None, 'error_mark').make(
+            ex, st)
         o.fields['mathparser'] = mp
         o.meta['src'] = self.src
         return o
@@ -229,6 +235,11 @@ class ParserS(Spec):
         p = cur.fields['parms']
         p.fields['lang_context'] = cm.LangSettingsS().make(ex, st)
         st.writes.append((p.oid, 'lang_context'))
+        mp = cur.fields.get('mathparser')
+        if isinstance(mp, Obj):
+            mp.fields['error_mark'] = ListS(AnyS(), None,
+                                            'error_mark').make(ex, st)
+            st.writes.append((mp.oid, 'error_mark'))
 
 
 class BufPostS(Spec):
@@ -255,6 +266,9 @@ def loop_parser_shapes(lp, parser='self', buf='buf'):
             lambda E, k=k: parser_field_specs(E['src'])[k])
     lp.shapes['%s.parms.lang_context' % parser] = \
         lambda E: cm.LangSettingsS()
+    # left-over error mark of the last maths section (no invariant)
+    lp.shapes['%s.mathparser.error_mark' % parser] = \
+        lambda E: ListS(AnyS(), None, 'error_mark')
 
     def flows_grow(E, parser=parser):
         old = E['$args'].get('old') if '$args' in E else None
